@@ -219,6 +219,7 @@ fn run_case<C: Cont>(st: &mut Stream, proc_: &mut Processor<C>, c: &Case) {
         format!("{} {} n={} |edges|={} first edges={:?}… dropped={:?} removed={:?} roots={:?} failing-nodes(call,node)={:?} (regenerate with the same seed/tier; the full request line is in the stream)", C::NAME, c.label, c.n, c.edges.len(), &c.edges[..12], c.drop_edges, c.removed, c.roots, c.aborts)
     };
 
+    mark(0, &case_txt);
     // harness assumption about petgraph: the adjacency it reports is the edge multiset we built
     for v in 0..bound {
         let want_in = sorted(edges.iter().filter(|e| e.1 == v).map(|e| e.0).collect());
